@@ -408,6 +408,16 @@ def full_like(a, fill, **kw):
     return r.view(SymArray)
 
 
+def full(shape, fill, dtype=None, **kw):
+    if anysym(fill) or dtype in (float, _np.float64, object) or (dtype is None and isinstance(fill, (float, _np.floating))):
+        if isinstance(shape, (int, _np.integer)):
+            shape = (int(shape),)
+        r = _np.empty(tuple(shape), dtype=object)
+        r[...] = sa(fill) if isinstance(fill, (list, tuple)) else fill
+        return r.view(SymArray)
+    return _np.full(shape, fill, dtype=dtype, **kw)
+
+
 def empty(shape, dtype=None, **kw):
     if dtype is not None and dtype is not float and dtype is not _np.float64 and dtype is not object:
         return _np.empty(shape, dtype)
@@ -731,3 +741,4 @@ for _n, _f in dict(zeros=zeros, ones=ones, zeros_like=zeros_like, ones_like=ones
                    mean=mean).items():
     setattr(np, _n, _f)
 np.empty_like = empty_like
+np.full = full
